@@ -130,6 +130,28 @@ pub fn oligo_big(seed: u64, scale: u64, dir: &str) {
         vec![(3, 40_000 + rng.below(100)), (1, 25_600 + rng.below(100)), (2, 9 + rng.below(30))],
         vec![(1, 8), (0, 8 + rng.below(4)), (4, 8), (2, 11)],
     ];
+    // scale 0: twenty records of exactly 65 536 bytes each on disk (">r<i>\n" + bases + "\n"), so that every header starts at a
+    // multiple of 64 KiB and the 17th at 1 MiB: whatever power-of-two block size a reader or a sizing pass uses, record
+    // boundaries coincide with block boundaries
+    let plans: Vec<Vec<(u8, u64)>> = if scale > 0 {
+        plans
+    } else {
+        (0..20u64)
+            .map(|i| {
+                let header = format!(">r{}\n", i).len() as u64;
+                let mut left = 65_536 - header - 1;
+                let mut p = Vec::new();
+                while left > 0 {
+                    let n = if left < 4000 { left } else { rng.range(8, 30_000).min(left - 8) };
+                    let c = if rng.below(9) == 0 { 4 } else { rng.below(4) as u8 };
+                    p.push((c, n));
+                    left -= n;
+                }
+                p
+            })
+            .collect()
+    };
+    let ks: Vec<usize> = if scale > 0 { vec![1, 2, 3, 5, 8] } else { vec![2, 5] };
     let seqs: Vec<Vec<u8>> = plans
         .iter()
         .map(|p| {
@@ -144,7 +166,7 @@ pub fn oligo_big(seed: u64, scale: u64, dir: &str) {
         .collect();
     let inp = format!("{}/tr_obig.fa", dir);
     write_fasta(&inp, &seqs);
-    for k in [1usize, 2, 3, 5, 8] {
+    for k in ks {
         for norm in [false, true] {
             let out = format!("{}/tr_obig_{}_{}.out", dir, k, norm);
             let path = if norm { WPath::Mmap } else { WPath::Batch };
